@@ -224,6 +224,8 @@ pub struct History {
     pub math_events: Vec<crate::simmath::MathEvent>,
     /// counters right after set_position
     pub init_counters: Option<nuts_rs::verif::AdaptCounters>,
+    /// trajectory tap of the first set_position (the initial step-size search), with observe_math
+    pub init_tap: Vec<nuts_rs::verif::TapState>,
 }
 
 impl History {
@@ -371,6 +373,7 @@ fn run_inner<S: Settings, M: Math>(settings: S, math: M, cfg: &ChainCfg, log: cr
         draws: vec![],
         failed_call: None,
         failed_tap: vec![],
+        init_tap: vec![],
         evals: vec![],
         n_evals: 0,
         faults_fired: vec![],
@@ -400,7 +403,14 @@ fn run_inner<S: Settings, M: Math>(settings: S, math: M, cfg: &ChainCfg, log: cr
         }
     };
     let n0 = log.lock().unwrap().n_evals;
+    if cfg.observe_math {
+        nuts_rs::verif::tap_enable();
+    }
     let r = catch_unwind(AssertUnwindSafe(|| chain.set_position(&cfg.init)));
+    if cfg.observe_math {
+        hist.init_tap = nuts_rs::verif::tap_take();
+        nuts_rs::verif::tap_disable();
+    }
     let n1 = log.lock().unwrap().n_evals;
     hist.set_position_evals = (n0, n1);
     match r {
